@@ -116,7 +116,7 @@ def gen_history(seed, tier="quick", zoo_filter=None, faults_on=True):
         if v > 0 and rng.random() < p_abort:
             if model.coupled and rng.random() < 0.4:
                 # the natural failed evaluation: the coupled solver runs out of sweeps and raises AnalysisError
-                ops.append({"op": "starve", "maxiter": rng.randint(1, 4)})
+                ops.append({"op": "starve", "maxiter": rng.randint(2, 5)})
             else:
                 ops.append({"op": "abort", "target": "run_model", "frac": round(rng.uniform(0.02, 0.98), 4)})
         ops.append({"op": "run_model"})
@@ -514,6 +514,10 @@ def execute(hist, stop_at_first=True, known=None, collect=True):
                     probe("guess_scribbled")
                 log.add("scribble", sk, op["factor"], n)
             elif kind == "abort":
+                if not visited_run:
+                    res["ops_skipped"] += 1
+                    log.add(kind, "skipped-no-inflight-state")
+                    continue
                 total = last_run_calls or max(10, 3 * len(obs.components(prob)))
                 # Only evaluations are aborted. An exception raised inside a linearisation lands inside
                 # OpenMDAO's own finite-difference / complex-step loops, which restore the perturbed input only
@@ -553,6 +557,13 @@ def execute(hist, stop_at_first=True, known=None, collect=True):
             elif kind == "starve":
                 import openmdao.api as om
 
+                if not visited_run:
+                    # same precondition as abort: in-flight state must exist (and maxiter=1 is never used: with
+                    # maxiter < 2 NLBGS evaluates apply_nonlinear at the raw guess instead of doing its clean sweep)
+                    res["ops_skipped"] += 1
+                    log.add(kind, "skipped-no-inflight-state")
+                    continue
+                op = dict(op, maxiter=max(2, int(op["maxiter"])))
                 saved = []
                 for path in model.coupled:
                     nl = prob.model._get_subsystem(path).nonlinear_solver
